@@ -25,12 +25,22 @@ THEOREMS = [
     "WM.C19.dp_lev", "WM.C19.dp_osa", "WM.C19.dp_lev_limit", "WM.C19.dp_osa_limit",
     "WM.C19.nfa_reach_sound", "WM.C19.nfa_reach_complete", "WM.C19.nfa", "WM.C19.dfa", "WM.C19.next_valid",
     "WM.C19.walk", "WM.C19.terms_within_multi", "WM.C19.terms_within_single",
-    "WM.C19.fuzzy_query", "WM.C19.multi_eq_single_partial", "WM.C19.single_subset_documented",
+    "WM.C19.fuzzy_query", "WM.C19.fuzzy_query_index", "WM.C19.multi_eq_single_partial", "WM.C19.single_subset_documented",
     "WM.C19.single_segment_misses_transposition", "WM.C19.not_multi_eq_single",
     "WM.C19.suggest_partial", "WM.C19.suggest_single_partial", "WM.C19.suggest_returns_word",
     "WM.C19.suggest_ignores_distance", "WM.C19.not_suggest_full",
+    "WM.C19.list_corrector_partial", "WM.C19.list_corrector_misses_transposition",
+    "WM.C19.correct_query_partial", "WM.C19.correct_query_single_partial",
 ]
 PARTIAL = {
+    "WM.C19.terms_within_single": "exact characterisation of the single-segment path, but by plain Levenshtein distance "
+                                  "(within lev); the property's distance is the documented osa - the difference is "
+                                  "the recorded finding, witness WM.C19.single_segment_misses_transposition / "
+                                  "WM.C19.not_multi_eq_single",
+    "WM.C19.fuzzy_query": "exact characterisation of FuzzyTerm hits on one segment, by lev instead of the documented "
+                          "osa and without documents whose matching term is the empty string (both recorded findings)",
+    "WM.C19.fuzzy_query_index": "the union over the segments of a multi-segment index (global document numbers); same "
+                                "two deviations as fuzzy_query",
     "WM.C19.multi_eq_single_partial": "carries the hypothesis that excludes the recorded defect (no lexicon term has "
                                       "osa <= d < lev); the full statement WM.C19.multi_eq_single_full is false of "
                                       "the code: WM.C19.not_multi_eq_single (witness lexicon [ba], word ab, d=1)",
@@ -40,6 +50,14 @@ PARTIAL = {
                               "WM.C19.not_suggest_full, witnesses WM.C19.suggest_returns_word, "
                               "WM.C19.suggest_ignores_distance",
     "WM.C19.suggest_single_partial": "as suggest_partial through the automaton path",
+    "WM.C19.list_corrector_partial": "membership (non-empty words of the list within plain Levenshtein, hence documented, "
+                                     "distance sharing the prefix) and the limit; the list measures lev, not the "
+                                     "documented osa: WM.C19.list_corrector_misses_transposition; the word itself is "
+                                     "not excluded",
+    "WM.C19.correct_query_partial": "the replacement is the word itself or a term within the documented distance sharing "
+                                    "the prefix; that it is the closest such term is false of the code (ranking by "
+                                    "frequency: WM.C19.suggest_ignores_distance)",
+    "WM.C19.correct_query_single_partial": "as correct_query_partial, single-segment reader and ListCorrector",
 }
 RULE = ("exhaustive: every word of length <=5 over {a,b} and <=4 over {a,b,c} as query word against lexicons "
         "containing all such words (one segment / three segments) and seeded sub-lexicons, d in 0..3, p in 0..6, "
@@ -67,7 +85,9 @@ MANIFEST = {
                   "plain Levenshtein distance - so the property is proved false of the code (recorded finding); "
                   "models tied to whoosh by exhaustive differential runs over all words <=5 on {a,b} / <=4 on "
                   "{a,b,c}; the Lean spec is the oracle of the end-to-end run.",
-    "level_note": "Suggestions: only membership and count are proved (ranking/self-exclusion are recorded defects). "
+    "level_note": "Searcher.suggest / Searcher.correct_query / SimpleQueryCorrector are thin wrappers: correctToken models "
+                  "the choice of the first suggestion, the argument forwarding (prefix, maxdist, aliases, custom "
+                  "correctors, default terms) is checked end to end only. Suggestions: only membership and count are proved (ranking/self-exclusion are recorded defects). "
                   "heapq, float score order, UTF-8 byte order = code point order and MultiReader term merging are "
                   "trusted; the fuel bounds of the three fuelled model loops are proved sufficient.",
     "technique": "Lean 4 proof + differential correspondence + spec-as-oracle end-to-end",
@@ -79,6 +99,8 @@ SIG_PREFIX = "levenshtein_automaton:prefix>len(term):IndexError"
 SIG_EMPTY = "Automata.find_matches:empty-string-match-ends-walk(lexicon-contains-empty-term)"
 SIG_MAXCP = "DFA.find_next_edge:label==U+10FFFF:ValueError"
 SIG_EMPTYTERM = "MultiTerm.matcher:skips-empty-term(hits==expected-minus-docs-of-the-empty-term)"
+SIG_LIST_LEV = ("ListCorrector._suggestions:plain-Levenshtein-automaton(transposition-neighbour-missing-or-ranked-"
+                "one-further)")
 SIG_SUG_SELF = "Corrector.suggest:returns-queried-word"
 SIG_SUG_ORDER = "ReaderCorrector._suggestions:order-ignores-distance(score-uses-maxdist)"
 SIG_SUG_CUT = "Corrector.suggest:cut-drops-closer-term(score-uses-maxdist-or-Levenshtein-ball)"
@@ -123,7 +145,7 @@ def _dp_stream(ctx):
         pairs += [(a, b) for a in W for b in W]
     # longer / multi-byte samples, with limits that make the early exit fire or just not fire
     alph = ["a", "b", "c", "é", "中", "\U0001F600", "\x00", MAXCP]
-    for _ in range(ctx.budget(1500, 40000)):
+    for _ in range(ctx.budget(1000, 40000)):
         k = rng.randint(2, 4)
         al = rng.sample(alph, k)
         a = "".join(rng.choice(al) for _ in range(rng.randint(0, 8)))
@@ -327,7 +349,7 @@ def _group_units(g):
             units.append((cfg.key, cfg.segs, [(w, ds, ps) for w in ws], want, []))
             umeta.append((cfg, "main"))
             if want_sug_on(cfg):
-                units.append((cfg.key, cfg.segs, [(w, sug_ds, sug_ps) for w in ws], {"suggest"}, limits))
+                units.append((cfg.key, cfg.segs, [(w, sug_ds, sug_ps) for w in ws], {"suggest", "correct"}, limits))
                 umeta.append((cfg, "sug"))
     return units, umeta
 
@@ -365,9 +387,9 @@ def _group_compare(ctx, g, umeta, real_parts, rep, sug_lines, sug_meta, fz_lines
     seglexs, mlexs = _group_lexs(g)
     real = {}
     for (cfg, _), part in zip(umeta, real_parts):
-        slot = real.setdefault(cfg.key, {"tw": {}, "fuzzy": {}, "suggest": {}})
-        for k in ("tw", "fuzzy", "suggest"):
-            slot[k].update(part[k])
+        slot = real.setdefault(cfg.key, {"tw": {}, "fuzzy": {}, "suggest": {}, "correct": {}})
+        for k in ("tw", "fuzzy", "suggest", "correct"):
+            slot[k].update(part.get(k, {}))
         slot["reader"] = part["reader"]
     pos = 0
     m_seg, m_base, s_osa, s_lev, s_dist = {}, {}, {}, {}, {}
@@ -455,18 +477,26 @@ def _index_stream(ctx, groups):
         u, m = _group_units(g)
         uspans.append((len(units), len(u), m))
         units += u
-    parts = ctx.pmap(G.run_index_unit, units)
+    import time as _t
+    _t0 = _t.time()
+    parts = ctx.pmap(G.run_index_unit, units, chunksize=max(1, len(units) // 96))
+    ctx.note("index: real code %.1fs (%d units)" % (_t.time() - _t0, len(units)))
+    _t0 = _t.time()
     lines, lspans = [], []
     for g in groups:
         ls = _group_lines(g)
         lspans.append((len(lines), len(ls)))
         lines += ls
-    rep = ctx.driver.ask(lines)
+    rep = ctx.driver.ask_parallel(lines, min_chunk=40)
+    ctx.note("index: driver %.1fs (%d lines)" % (_t.time() - _t0, len(lines)))
+    _t0 = _t.time()
     sug_lines, sug_meta, fz_lines, fz_meta = [], [], [], []
     for g, (us, ul, um), (ls, ll) in zip(groups, uspans, lspans):
         _group_compare(ctx, g, um, parts[us:us + ul], rep[ls:ls + ll], sug_lines, sug_meta, fz_lines, fz_meta)
+    ctx.note("index: compare %.1fs" % (_t.time() - _t0))
+    _t0 = _t.time()
     if fz_lines:
-        rep = ctx.driver.ask(fz_lines)
+        rep = ctx.driver.ask_parallel(fz_lines, min_chunk=100)
         pos = 0
         for cfg, rr, w, ds, ps, nseg, bad, todo in fz_meta:
             lines = rep[pos:pos + nseg]
@@ -486,8 +516,10 @@ def _index_stream(ctx, groups):
                         k += 1
             for (w2, d, p, exp, exp_lev, nontriv, case) in todo:
                 _check_fuzzy(ctx, cfg, rr, w2, d, p, exp, exp_lev, nontriv, case, model.get((d, p), "model-error"))
+    ctx.note("index: fuzzy model+check %.1fs" % (_t.time() - _t0))
+    _t0 = _t.time()
     if sug_lines:
-        rep = ctx.driver.ask(sug_lines)
+        rep = ctx.driver.ask_parallel(sug_lines, min_chunk=500)
         for (real, cfg, mi, w, lim, d, p, model_tw, s_osa_e, s_dist_e), line in zip(sug_meta, rep):
             obs = real[cfg.key]["suggest"][(w, lim, d, p)]
             if isinstance(model_tw, str):
@@ -499,6 +531,8 @@ def _index_stream(ctx, groups):
             else:
                 model = G.parse_words(parse_sexp(line)[0])
             _check_suggest(ctx, cfg, w, lim, d, p, s_osa_e, s_dist_e, model, obs)
+            if lim == 5 and (w, d, p) in real[cfg.key]["correct"]:
+                _check_correct(ctx, cfg, w, d, p, s_osa_e, s_dist_e, model, real[cfg.key]["correct"][(w, d, p)])
 
 
 def _check_fuzzy(ctx, cfg, rr, w, d, p, exp, exp_lev, nontriv, case, mdocs):
@@ -597,6 +631,241 @@ def _check_suggest(ctx, cfg, w, lim, d, p, cands_osa, dist, model, obs):
 
 # ------------------------------------------------------------------------------------------------
 
+def _check_correct(ctx, cfg, w, d, p, cands_osa, dist, model_sug, rc):
+    """Searcher.correct_query on Term(f, w): the replacement must be a lexicon term within the
+    distance that shares the prefix (never the word), the closest / most frequent one; `model_sug` is
+    the model's Corrector.suggest(limit=5) for the same call (SimpleQueryCorrector takes sugs[0])."""
+    C = [t for t in cands_osa if t != w]
+    key = lambda t: (dist[t], -cfg.freq[t])  # noqa
+    if isinstance(model_sug, str):
+        pred = model_sug
+    else:
+        pred = model_sug[0] if model_sug else w
+    for name in ("forced", "alias", "string", "default"):
+        if name not in rc:
+            continue
+        obs = rc[name]
+        case = {"kind": "correct", "variant": name, "segs": cfg.segs, "w": w, "d": d, "p": p}
+        ctx.case(("correct", cfg.key, name, w, d, p), nontrivial=len(C) > 1)
+        ctx.stat("correct_query:" + name)
+        want = pred
+        if name == "default" and w in cfg.freq:
+            want = w            # words that are in the index are left alone
+        if name == "string" and not isinstance(obs, str):
+            text, string = obs
+            if string != text:
+                ctx.violation("Correction.string:differs-from-corrected-term", case, text, string,
+                              "the corrected query string is not the corrected word")
+            obs = text
+        explained = (obs == want)
+        if not explained:
+            ctx.divergence("Searcher.correct_query[%s]" % name, [cfg.key, w, d, p], want, obs)
+        suffix = "" if explained else ":unexplained"
+        if obs.startswith("EXC:"):
+            if obs == "EXC:IndexError" and p > len(w) and not cfg.multi:
+                ctx.violation(SIG_PREFIX, case, "a query", obs, "correct_query with prefix > len(word)")
+            else:
+                ctx.violation("Searcher.correct_query:raises:" + obs, case, "a query", obs, "")
+            continue
+        if name == "default" and w in cfg.freq:
+            if obs != w:
+                ctx.violation("Searcher.correct_query:corrects-a-word-that-is-in-the-index", case, w, obs, "")
+            continue
+        if obs != w:
+            if obs not in C:
+                ctx.violation("Searcher.correct_query:correction-not-a-term-within-distance-sharing-the-prefix",
+                              case, sorted(C, key=key)[:3], obs,
+                              "the word is replaced by something that is not a term of the field within maxdist "
+                              "edits sharing the first `prefix` characters")
+            elif any(key(t) < key(obs) for t in C):
+                ctx.violation(SIG_SUG_ORDER + suffix, case, sorted(C, key=key)[0], obs,
+                              "correct_query picks the most frequent instead of the closest term")
+        elif C:
+            if w in cfg.freq:
+                ctx.violation(SIG_SUG_SELF + suffix, case, sorted(C, key=key)[0], obs,
+                              "the word is 'corrected' to itself (first suggestion is the word)")
+            else:
+                ctx.violation(SIG_SUG_CUT + suffix, case, sorted(C, key=key)[0], obs,
+                              "no correction although a term within the documented distance exists")
+
+
+# ------------------------------------------------------------------------------------------------
+# stream 4: ListCorrector / MultiCorrector / correct_query with custom correctors
+
+def _py_suggest(items, limit):
+    """Corrector.suggest's heap and final sort on (score, suggestion) items (harness-side mirror,
+    used only to tell the recorded deviations from new ones)."""
+    import heapq
+    heap = []
+    for item in items:
+        if len(heap) < limit:
+            heapq.heappush(heap, item)
+        elif item > heap[0]:
+            heapq.heapreplace(heap, item)
+    return [sug for _, sug in sorted(heap, key=lambda x: (0 - x[0], x[1]))]
+
+
+def _corrector_stream(ctx):
+    rng = ctx.rng("correctors")
+    W = G.words_upto("ab", 4)
+    extra = ["abc", "c", "cab", "bca", "acb"]
+    jobs = []
+    for i in range(ctx.budget(2, 12)):
+        dens = rng.choice([0.15, 0.4, 0.8])
+        wl = sorted(set([t for t in W if t and rng.random() < dens] + [t for t in extra if rng.random() < 0.3]))
+        docs = []
+        for t in W:
+            if rng.random() < rng.choice([0.2, 0.5]):
+                docs += [t] * rng.choice([1, 1, 2, 4])
+        docs = docs or ["ab"]
+        rng.shuffle(docs)
+        nseg = rng.choice([1, 2])
+        segs = [sg for sg in (docs[j::nseg] for j in range(nseg)) if sg]
+        jobs.append((Config("corr%d" % i, segs), wl))
+    _corrector_jobs(ctx, jobs, W, [0, 1, 2, 3], [0, 1, 2, 5], [1, 3, 50])
+
+
+def _corrector_jobs(ctx, jobs, W, ds, ps, limits):
+    units, meta = [], []
+    for cfg, wl in jobs:
+        for j in range(0, len(W), 8):
+            units.append((cfg.key, cfg.segs, wl, [(w, ds, ps) for w in W[j:j + 8]], limits))
+            meta.append((cfg, wl))
+    parts = ctx.pmap(G.run_corrector_unit, units)
+    real = {}
+    for (cfg, wl), part in zip(meta, parts):
+        slot = real.setdefault(cfg.key, {"list": {}, "multi-min": {}, "multi-max": {}, "cq-list": {}})
+        for k in slot:
+            slot[k].update(part[k])
+        real[cfg.key + ":reader"] = part["reader"]
+    lines = []
+    mlimits = sorted(set(limits) | {5})      # 5 = the default limit SimpleQueryCorrector uses
+    for cfg, wl in jobs:
+        multi = real[cfg.key + ":reader"] == "MultiReader"
+        for w in W:
+            lines.append("c19 dists lev %s %s" % (G.sx_words(wl), G.sx_word(w)))
+            lines.append("c19 dists osa %s %s" % (G.sx_words(wl), G.sx_word(w)))
+            lines.append("c19 dists osa %s %s" % (G.sx_words(cfg.lex), G.sx_word(w)))
+            lines.append("c19 list-sug-grid %s %s %s %s %s" % (G.sx_words(wl), G.sx_word(w), G.sx_nats(mlimits),
+                                                               G.sx_nats(ds), G.sx_nats(ps)))
+            if multi:
+                lines.append("c19 tw-base-grid %s %s %s %s" % (G.sx_words(cfg.lex), G.sx_word(w), G.sx_nats(ds),
+                                                               G.sx_nats(ps)))
+            else:
+                lines.append("c19 tw-seg-grid (%s) %s %s %s" % (G.sx_words(cfg.lex), G.sx_word(w), G.sx_nats(ds),
+                                                                G.sx_nats(ps)))
+    rep = ctx.driver.ask_parallel(lines)
+    pos = 0
+    for cfg, wl in jobs:
+        multi = real[cfg.key + ":reader"] == "MultiReader"
+        rr = real[cfg.key]
+        for w in W:
+            lev_wl = dict(zip(wl, (int(x) for x in parse_sexp(rep[pos])[0])))
+            osa_wl = dict(zip(wl, (int(x) for x in parse_sexp(rep[pos + 1])[0])))
+            osa_lex = dict(zip(cfg.lex, (int(x) for x in parse_sexp(rep[pos + 2])[0])))
+            lsug = {}
+            flat = parse_sexp(rep[pos + 3])[0]
+            k = 0
+            for d in ds:
+                for p in ps:
+                    for lim in mlimits:
+                        lsug[(d, p, lim)] = _words_or_err(flat[k])
+                        k += 1
+            grid = _grid(parse_sexp(rep[pos + 4])[0], ds, ps)
+            pos += 5
+            for d in ds:
+                for p in ps:
+                    item = grid[(d, p)]
+                    if isinstance(item, str):
+                        mtw = item
+                    else:
+                        mtw = _words_or_err(item if multi else item[0])
+                    # what the current code does, from the Lean distances / the Lean terms_within model
+                    list_items = [(0 - max(1, lev_wl[t]), t) for t in wl
+                                  if d >= 1 and _share_prefix(p, t, w) and lev_wl[t] <= d]
+                    reader_items = None if isinstance(mtw, str) else \
+                        [(0 - (d + (1.0 / (cfg.freq.get(t) or 1) * 0.5)), t) for t in mtw]
+                    # what the property allows
+                    ok_list = set(t for t in wl if _share_prefix(p, t, w) and osa_wl[t] <= d)
+                    ok_lex = set(t for t in cfg.lex if _share_prefix(p, t, w) and osa_lex[t] <= d)
+                    for lim in limits:
+                        # model of ListCorrector: the Lean `listSuggest`; the harness-side mirror (from the Lean
+                        # `lev` distances) must agree with it
+                        if lsug[(d, p, lim)] != _py_suggest(list_items, lim):
+                            ctx.divergence("listSuggest-vs-mirror", [wl, w, lim, d, p], lsug[(d, p, lim)],
+                                           _py_suggest(list_items, lim))
+                        _check_corrector(ctx, "list", cfg, wl, w, lim, d, p, rr["list"][(w, lim, d, p)],
+                                         lsug[(d, p, lim)], ok_list, osa_wl)
+                        for name, op in (("multi-min", min), ("multi-max", max)):
+                            if reader_items is None:
+                                pred = mtw
+                            else:
+                                seen = {}
+                                for score, sug in reader_items + list_items:
+                                    seen[sug] = op(seen[sug], score) if sug in seen else score
+                                pred = _py_suggest([(sc, sg) for sg, sc in seen.items()], lim)
+                            _check_corrector(ctx, name, cfg, wl, w, lim, d, p, rr[name][(w, lim, d, p)], pred,
+                                             ok_list | ok_lex, None)
+                    first = lsug[(d, p, 5)]
+                    _check_corrector(ctx, "cq-list", cfg, wl, w, 1, d, p, rr["cq-list"][(w, d, p)],
+                                     first if isinstance(first, str) else (first[0] if first else w), ok_list, osa_wl)
+
+
+def _check_corrector(ctx, kind, cfg, wl, w, lim, d, p, obs, pred, allowed, dist):
+    """kind: list / multi-min / multi-max (obs = suggestion list) or cq-list (obs = corrected word)."""
+    case = {"kind": "corrector", "which": kind, "segs": cfg.segs, "wordlist": wl, "w": w, "limit": lim, "d": d,
+            "p": p}
+    ctx.case(("corrector", kind, cfg.key, w, lim, d, p), nontrivial=len(allowed - {w}) > 1)
+    ctx.stat("corrector:" + kind)
+    explained = (obs == pred)
+    if not explained:
+        ctx.divergence("spelling.%s" % kind, [cfg.key, wl, w, lim, d, p], pred, obs)
+    suffix = "" if explained else ":unexplained"
+    if isinstance(obs, str) and obs.startswith("EXC:"):
+        ctx.violation("spelling.%s:raises:%s" % (kind, obs), case, "suggestions", obs, "")
+        return
+    if kind == "cq-list":
+        # Searcher.correct_query(correctors={f: ListCorrector}): obs is the word the query now holds
+        C = sorted(allowed - {w}, key=lambda t: (dist[t], t))
+        if obs != w:
+            if obs not in allowed:
+                ctx.violation("Searcher.correct_query:correction-not-a-term-within-distance-sharing-the-prefix",
+                              case, C[:3], obs, "custom corrector")
+            elif any(dist[t] < dist[obs] for t in C):
+                ctx.violation(SIG_LIST_LEV + suffix, case, C[:1], obs, "a closer word exists (transposition)")
+        elif C:
+            if w in wl:
+                ctx.violation(SIG_SUG_SELF + suffix, case, C[:1], obs, "the word is 'corrected' to itself")
+            else:
+                ctx.violation(SIG_LIST_LEV + suffix, case, C[:1], obs,
+                              "no correction although a word within the documented distance exists")
+        return
+    sugs = list(obs)
+    if len(sugs) > lim or len(set(sugs)) != len(sugs):
+        ctx.violation("spelling.%s:too-many-or-duplicate-suggestions" % kind, case, "at most %d" % lim, obs, "")
+    bad = [t for t in sugs if t != w and t not in allowed]
+    if bad:
+        ctx.violation("spelling.%s:suggestion-not-a-word-within-distance-sharing-the-prefix" % kind, case,
+                      sorted(allowed)[:5], obs, "")
+        return
+    if w in sugs:
+        ctx.violation(SIG_SUG_SELF + suffix, case, "suggestions without %r" % w, obs,
+                      "the queried word is returned as its own suggestion")
+    if dist is not None:
+        # a single word list: closeness is the only ranking criterion
+        C = sorted(allowed - {w}, key=lambda t: (dist[t], t))
+        O = [t for t in sugs if t != w]
+        room = lim - (1 if w in sugs else 0)
+        out_of_order = any(dist[O[i]] > dist[O[i + 1]] for i in range(len(O) - 1))
+        dropped = [t for t in C if t not in O]
+        worse_kept = any(dist[t] < dist[s] for t in dropped for s in O)
+        short = len(O) < min(room, len(C))
+        if out_of_order or worse_kept or short:
+            ctx.violation(SIG_LIST_LEV + suffix, case, C[:lim], obs,
+                          "ListCorrector measures plain Levenshtein distance: a transposition neighbour counts as "
+                          "two edits (missing at maxdist 1, ranked behind true distance-2 words otherwise)")
+
+
 def _multibyte_configs(ctx, n):
     rng = ctx.rng("mb")
     pool = ["a", "b", "é", "ê", "中", "文", "\U0001F600", "\U0001F601", "\x00", "\x01",
@@ -648,7 +917,7 @@ def _run(ctx):
     A2 = G.words_upto("ab", 5)
     A3 = G.words_upto("abc", 4)
     if ctx.tier == "quick":
-        doms = [("ab5", A2, A2), ("abc4", A3[:40], A3)]
+        doms = [("ab5", A2, A2), ("abc4", A3[:30], A3)]
     else:
         doms = [("ab5", A2, A2), ("abc4", A3, A3)]
     _automaton_stream(ctx, doms)
@@ -657,17 +926,22 @@ def _run(ctx):
     for name, W in (("ab5", A2), ("abc4", A3)):
         # every word is a lexicon member in both tiers; the quick tier queries all words over {a,b} but only
         # the words of length <= 3 and every third word of length 4 over {a,b,c} (seed-rotated)
-        cfgs = _configs_for(ctx, name, W, ctx.budget(2 if name == "ab5" else 1, 6))
+        cfgs = _configs_for(ctx, name, W, ctx.budget(1, 6))
         Q = W
         if ctx.tier == "quick" and name == "abc4":
             long = [w for w in W if len(w) == 4]
             Q = [w for w in W if len(w) < 4] + long[ctx.seed % 3::3]
-        groups.append(_group(name, Q, cfgs, DS, PS, [0, 1, 2, 3], [0, 1, 3], [0, 1, 2, 5, 50],
+        ps = PS
+        if ctx.tier == "quick" and name == "abc4":
+            ps = [0, 1, 2, 4, 6]          # 3 and 5 are covered over {a,b} and in the thorough tier
+        groups.append(_group(name, Q, cfgs, DS, ps, [0, 1, 2, 3], [0, 1, 2], [0, 1, 2, 5, 50],
                              lambda cfg: ":sub" in cfg.key))
     groups += [_group(cfg.key, qs, [cfg], [0, 1, 2, 3], [0, 1, 2, 6], [1, 2], [0, 1], [1, 5], lambda c: True)
-               for cfg, qs in _multibyte_configs(ctx, ctx.budget(40, 400))]
+               for cfg, qs in _multibyte_configs(ctx, ctx.budget(20, 400))]
     _index_stream(ctx, groups)
     lap("index(ab5,abc4,multibyte)")
+    _corrector_stream(ctx)
+    lap("correctors")
     ctx.sample({"terms_within": {"lexicon": ["ab", "ba"], "word": "ab", "d": 1, "p": 0},
                 "documented(osa)": ["ab", "ba"], "one segment returns": ["ab"]})
 
@@ -689,7 +963,7 @@ def _run_cases(ctx, cases):
     """Several stored cases at once (one worker pool, one driver batch for the index cases)."""
     groups = []
     for i, case in enumerate(cases):
-        if case.get("kind") in ("tw", "fuzzy", "suggest"):
+        if case.get("kind") in ("tw", "fuzzy", "suggest", "correct"):
             cfg = Config("replay%d" % i, case["segs"])
             lims = [case["limit"]] if case["kind"] == "suggest" else [5]
             groups.append(_group(cfg.key, [case["w"]], [cfg], [case["d"]], [case["p"]], [case["d"]], [case["p"]],
@@ -703,7 +977,10 @@ def _run_cases(ctx, cases):
 def _run_case(ctx, case):
     """Re-execute one stored case through the normal comparison code."""
     kind = case.get("kind")
-    if kind in ("tw", "fuzzy", "suggest"):
+    if kind == "corrector":
+        _corrector_jobs(ctx, [(Config("replay", case["segs"]), case["wordlist"])], [case["w"]], [case["d"]],
+                        [case["p"]], [case["limit"]])
+    elif kind in ("tw", "fuzzy", "suggest", "correct"):
         cfg = Config("replay", case["segs"])
         lims = [case["limit"]] if kind == "suggest" else [5]
         _index_stream(ctx, [_group("replay", [case["w"]], [cfg], [case["d"]], [case["p"]], [case["d"]], [case["p"]],
